@@ -12,7 +12,7 @@ exc.filename outside gemato fails with the same errno).
 import itertools
 import os
 
-from gverif import gem, scen
+from gverif import gem, scen, seams
 from gverif.common import fresh_root
 from gverif.evidence import Stats
 from gverif.props import c01, c03, c09
@@ -461,14 +461,17 @@ def check_X(case, scratch, stats=None):
     import gemato.openpgp as gpgmod
     op, ret, status, err = case['op'], case['ret'], X_STATUS[case['status']], bytes(case['stderr'])
 
-    class Proc:
+    class Proc(seams.PopenLike):
         def __init__(self, argv):
             self.argv = argv
+            self.returncode = None
 
         def communicate(self, stdin=None):
+            self.returncode = ret
             return (status.encode('utf8') if '--kill' not in self.argv else b'', err)
 
-        def wait(self):
+        def wait(self, timeout=None):
+            self.returncode = ret
             return ret
 
     shim = types.SimpleNamespace(Popen=lambda argv, **kw: Proc(argv), PIPE=real_subprocess.PIPE,
